@@ -233,6 +233,8 @@ var probes = []string{
 	"输出（取随机数） >= 0",
 	"输出显示",
 	"输出异常",
+	// literals denote their value in every execution
+	"输出【4100 + 0，7300 * 2 - 7300，4100 < 4101】",
 	// values handed out by a library: every call must hand out a pristine one
 	"导入《@JSON》\n输出（解析JSON：“null”）",
 	"导入《@JSON》\n输出（解析JSON：“{}”）",
@@ -253,7 +255,7 @@ func genPolluter(t *rapid.T) string {
 	arg := func() string {
 		return rapid.SampledFrom([]string{"1", "41", "“a”", "【1】", "真", "数值", "-0.5"}).Draw(t, "parg")
 	}
-	switch rapid.IntRange(0, 14).Draw(t, "pk") {
+	switch rapid.IntRange(0, 15).Draw(t, "pk") {
 	case 0: // redefine the constructor of a predefined / library type
 		cls := rapid.SampledFrom([]string{"异常", "异常", "HTTP响应", "HTTP请求", "数值", "显示"}).Draw(t, "ccls")
 		imp := ""
@@ -319,6 +321,8 @@ func genPolluter(t *rapid.T) string {
 		default:
 			return fileProg("导入“坏”\n输出1", "坏", tool, "工具", tool)
 		}
+	case 14: // number literals changed in place
+		return rapid.SampledFrom([]string{"输出以4100（自增：1）", "输出以4100（自减：7）", "如何步？\n    输入计\n    以计（自增：1）\n    输出计\n输出（步：7300）", "如何步？\n    输出4100\n（步）得到甲\n以甲（自增：3）\n输出甲"}).Draw(t, "numlit")
 	case 13: // a value handed out by a library, changed in place without being rebound (得到 / argument)
 		doc := rapid.SampledFrom([]string{"null", "{}", "{\"a\":[]}", "{\"a\":[1],\"b\":{}}"}).Draw(t, "doc")
 		mut := rapid.SampledFrom([]string{"以结果（写入：“k”、1）", "以结果（移除：“a”）", "结果#“z” = 【1】", "（改：结果）"}).Draw(t, "jmut")
@@ -453,6 +457,9 @@ func TestKnownPolluters(t *testing.T) {
 		"导入《@测试库》\n令物 = （新建HTTP响应：200、“x”）\n以物之头部（写入：“z”、1）\n输出1",
 		"以“1*^3”（转换数值）\n输出1",
 		"令真 = 0\n输出1",
+		// a number literal changed in place (literal as receiver / handed straight to a method)
+		"输出以4100（自增：1）",
+		"如何步？\n    输入计\n    以计（自增：1）\n    输出计\n输出（步：7300）",
 		"导入《@JSON》\n（解析JSON：“null”），得到结果\n以结果（写入：“k”、1）\n输出结果",
 		"导入《@JSON》\n（解析JSON：“{}”），得到结果\n以结果（写入：“k”、1）\n输出结果",
 		// declarations of every name a probe uses
@@ -502,14 +509,15 @@ func TestConcurrentHandlers(t *testing.T) {
 				tok := fmt.Sprintf("tok-%d-%d", round, g)
 				var body string
 				if g%2 == 0 {
-					// every request names a variable with a character no earlier request used
+					// every request formats a number with a directive no earlier request used, and
+					// names a variable with a character no earlier request used
 					// (state that a front end keeps per character is touched for the first time
 					// while other requests are being compiled)
 					id := "乙" + string(rune(0x3400+(round*16+g)%6000))
 					if !syntax.IdInRange(rune(0x3400 + (round*16+g)%6000)) {
 						id = "乙"
 					}
-					payload, _ := json.Marshal(map[string]string{"SourceCode": "输入甲\n令" + id + " = 数值 + 甲\n输出【“" + tok + "”，" + id + "】#1", "VarInput": "甲 = " + fmt.Sprint(g)})
+					payload, _ := json.Marshal(map[string]string{"SourceCode": "输入甲\n令" + id + " = 数值 + 甲\n令丙 = “{#." + fmt.Sprint((round*16+g)%300) + "}” % 【" + id + "】\n输出【“" + tok + "”，" + id + "，丙】#1", "VarInput": "甲 = " + fmt.Sprint(g)})
 					req := httptest.NewRequest("POST", "http://zn.test/", bytes.NewReader(payload))
 					rec := httptest.NewRecorder()
 					pg.ServeHTTP(rec, req)
